@@ -24,7 +24,7 @@ import (
 
 func init() {
 	vc.Register(&vc.Check{ID: "C04", Level: "model_checking", Run: run, Replay: replay, QuickSec: 170, ThoroSec: 1800,
-		Rule:   "real pace.DoPACE against the independent chip (own EC arithmetic, fixed-width ECKA secret per TR-03111) for ALL 77 configurations (parameter id 8..18 x {GM-3DES, GM-AES128/192/256, CAM-AES128/192/256}); terminal and chip randomness are explorer-owned (crypto/rand.Reader seam): scalar alphabet per role {2, n-2, pattern} in full product (quick: on 4 configurations; thorough: all 77) plus, on all 77, the slices where the shared x-coordinate or a transmitted public coordinate has a leading zero octet (found by deterministic search), passwords {TD1, TD2, TD3, TD1 extended, CAN}. Success oracle: Success, chip completed, first protected read works on both sides (same keys and counter), CAM result successful for CAM. Fail-closed (one deviation per run): wrong password, every single-bit flip of the encrypted nonce, mapping/agreement key replaced by {other valid point, off-curve point, the terminal's own key, truncated, 00}, every single-bit flip of the token, every single-bit flip of the encrypted chip-authentication data; plus a device WITHOUT the password answering every step from {echo of the terminal's value, G, 2G} x {echo of the terminal's token, zeros, pattern} (complete 27-way product, reflection attacks). Selection: every ordered subset (<=3) of a 7-entry PACEInfo alphabet containing a supported entry. Histories: every sequence of up to 3 (thorough 4) runs on one session over {conforming chip, password-less replay of the recorded previous run, chip with another password}, through one reused Pace object and a new one per run. states = protocol runs, transitions = exchanges; distinct_nontrivial = distinct (configuration, scalar/deviation class, outcome)",
+		Rule:   "real pace.DoPACE against the independent chip (own EC arithmetic, fixed-width ECKA secret per TR-03111) for ALL 77 configurations (parameter id 8..18 x {GM-3DES, GM-AES128/192/256, CAM-AES128/192/256}); terminal and chip randomness are explorer-owned (crypto/rand.Reader seam): scalar alphabet per role {2, n-2, pattern} in full product (quick: on 4 configurations; thorough: all 77) plus, on all 77, the slices where the shared x-coordinate or a transmitted public coordinate has a leading zero octet (found by deterministic search), passwords {TD1, TD2, TD3, TD1 extended, CAN}. Success oracle: Success, chip completed, first protected read works on both sides (same keys and counter), CAM result successful for CAM. Fail-closed (one deviation per run): wrong password, every single-bit flip of the encrypted nonce, mapping/agreement key replaced by {other valid point, off-curve point, the terminal's own key, truncated, 00}, every single-bit flip of the token, the genuine token cut or extended to 0/1/4/7/9/16 octets, a password-less device FOLLOWING the protocol on the nonce value zero with an encrypted nonce of 0..48 octets, every single-bit flip of the encrypted chip-authentication data; plus a device WITHOUT the password answering every step from {echo of the terminal's value, G, 2G} x {echo of the terminal's token, zeros, pattern} (complete 27-way product, reflection attacks). Selection: every ordered subset (<=3) of a 7-entry PACEInfo alphabet containing a supported entry. Histories: every sequence of up to 3 (thorough 4) runs on one session over {conforming chip, password-less replay of the recorded previous run, chip with another password}, through one reused Pace object and a new one per run. states = protocol runs, transitions = exchanges; distinct_nontrivial = distinct (configuration, scalar/deviation class, outcome)",
 		Assume: []string{"refchip PACE follows ICAO 9303-11 §4.4 with BSI TR-03111 FE2OS encoding of the shared secret", "refcrypto anchored to ICAO App. D; EC arithmetic self-checked (generator on curve, n*G = infinity)", "MAC / discrete-log hardness not searched"}})
 }
 
@@ -390,6 +390,19 @@ func runOne(pc paceCase) result {
 			m := bytes.Clone(genuine)
 			m[off+pc.Bit/8] ^= 1 << (pc.Bit % 8)
 			return m
+		case pc.Dev == "token-length" && n == 4:
+			// the genuine token cut to / extended to pc.Bit octets (a comparison over the shorter operand accepts a prefix)
+			off, l := inner(0x86)
+			if off < 0 {
+				return nil
+			}
+			t := bytes.Clone(body[off : off+l])
+			if pc.Bit <= len(t) {
+				t = t[:pc.Bit]
+			} else {
+				t = append(t, make([]byte, pc.Bit-len(t))...)
+			}
+			return replaceValue(0x86, t)
 		case pc.Dev == "ecad-bitflip" && n == 4:
 			off, l := inner(0x8A)
 			if off < 0 || pc.Bit >= l*8 {
@@ -706,6 +719,14 @@ hostile:
 			pc := base
 			pc.Dev, pc.Bit = "token-bitflip", b
 			do(sec3, pc, fmt.Sprintf("%s/token/%d", lab, b))
+		}
+		for _, tl := range []int{0, 1, 4, 7, 9, 16} {
+			if !c.Mine() {
+				continue
+			}
+			pc := base
+			pc.Dev, pc.Bit = "token-length", tl
+			do(sec3, pc, fmt.Sprintf("%s/token-length/%d", lab, tl))
 		}
 		if cf.CAM {
 			curve := refpki.CurveByName(refchip.StdCurve(cf.ParamID))
